@@ -26,7 +26,7 @@ P = {
         "name": "entrypoints", "pkg": "./internal/zzverif/c13", "test": "TestVerifC13",
         "overlay": dict(ASSEMBLY_OVERLAY, **{"internal/zzverif/c13/c13_test.go": "c13/c13_test.go"}),
         "eval_module": "Run.Eval_C13", "check_term": "check_repo",
-        "n_quick": 1200, "n_thorough": 30000,
+        "n_quick": 1200, "n_thorough": 24000,
         "findings": {3: "C13-F3b", 5: "C13-F5", 8: "C13-F8"},
         "shard": 100,
     }],
@@ -82,7 +82,7 @@ P = {
                   "of the repairs (record `fixes`), and each repaired finding keeps a _pinned_refuted witness (differs without the "
                   "repair, agrees with it, same request).  Decision and proxy share one context and agree without any guard.  Lemmas of "
                   "independent use: Header(n) agrees for ALL names and header multisets; net/http's and grpcv3's cookie readers agree on "
-                  "every plain Cookie line.  The model is tied to the code by sending ~1200 (quick) / 30000 (thorough) generated "
+                  "every plain Cookie line.  The model is tied to the code by sending ~1200 (quick) / 24000 (thorough) generated "
                   "requests per run to the three real assembled applications loaded with generated rule sets and comparing decision, "
                   "matched rule, the echoed view and the hand-over with the model inside Coq; the property predicate (three "
                   "observations equal) is evaluated on the observations.",
